@@ -7,7 +7,7 @@ From Coq Require Import String.
 From Coq Require Import List NArith ZArith Lia Bool Arith.
 From Coq Require Import Init.Byte.
 From FFS Require Import Base.Res Base.Bytes Keystore.Json Keystore.Prims Keystore.Model Keystore.Spec.
-From FFS Require Import Keystore.JsonFacts Keystore.ProofsFresh Keystore.ProofsMac Keystore.ProofsNew Keystore.ProofsRead Keystore.ProofsRound Keystore.Toy.
+From FFS Require Import Keystore.JsonFacts Keystore.ProofsFresh Keystore.ProofsMac Keystore.ProofsNew Keystore.ProofsRead Keystore.ProofsRound Keystore.ProofsPw Keystore.Toy.
 Import ListNotations.
 
 (* 1. A newly created wallet file is a standard Web3 Secret Storage V3 document.  For every
@@ -129,6 +129,17 @@ Theorem C07_tamper_needs_collision :
     \/ collision (hash P).
 Proof. exact tamper_needs_collision. Qed.
 Print Assumptions C07_tamper_needs_collision.
+
+(* The wrong-password clause in particular: if the SAME document is accepted under two passwords, both
+   runs decoded the same crypto section and KDF parameters, and either the second halves of the two
+   derived keys KDF(pw, params), KDF(pw', params) are equal, or a hash collision has been exhibited. *)
+Theorem C07_wrong_password_needs_collision :
+  forall (P : prims) t pw pw' w w',
+    read_wallet_tree P t pw = Ok w -> read_wallet_tree P t pw' = Ok w' ->
+    (mac_key P w pw = mac_key P w pw' /\ w_crypto w' = w_crypto w /\ w_kdfparams w' = w_kdfparams w)
+    \/ collision (hash P).
+Proof. exact wrong_password_needs_collision. Qed.
+Print Assumptions C07_wrong_password_needs_collision.
 
 (* 5. Fresh randomness.  Over any history of creations (any constructors, passwords, keys) drawing from
       one random source, the stream is exactly the concatenation of (salt_i ++ iv_i ++ 16 UUID bytes),
